@@ -10,7 +10,7 @@
     'magic | 'cell | 'bitstring | 'addr | 'tonbits | 'tlint | 'acct |
     'maybe (fam arg) *)
 From Coq Require Import List NArith ZArith String Bool.
-From Tongo Require Import Lib.Bits Lib.Res Lib.Sx Model.BocParse Model.JsonText Model.Json.
+From Tongo Require Import Lib.Bits Lib.Res Lib.Sx Model.BitString Model.BocParse Model.JsonText Model.Json.
 Import ListNotations.
 Local Open Scope string_scope.
 Local Open Scope list_scope.
@@ -71,7 +71,13 @@ Definition print_fam (nm : string) (arg v : sx) : option (res str) :=
                        else if is "tlint" then Some (print_tl_int256 bs)
                        else if is "cell" then Some (print_cell (fun b => Ok b) bs)
                        else None
-  | SN _, SBits b => if is "bitstring" then Some (Ok (print_bitstring b)) else None
+  | SN free, SBits b =>
+      (* the argument is the number of free bits of the writer's buffer: the
+         buffer-level model of ToFiftHex runs on that state *)
+      if is "bitstring" then
+        Some (if (free <=? 2000)%N then print_bitstring_bs (written_bs b (N.to_nat free))
+              else Ok (print_bitstring b))
+      else None
   | SN _, SL [SZ wc; SBytes addr] => if is "acct" then Some (print_account wc addr) else None
   | SN _, SL _ => if is "addr" then
                     match addr_of_sx v with Some a => Some (Ok (print_msgaddr a)) | None => None end
